@@ -638,6 +638,30 @@ def tdb_rules(ctx, A):
         from r_panic import cycle_without
         ok8 = bool(L) and not cycle_without(tdb, L[1], L[0], {g8[0].block})
     ctx.ob(['C05', 'C14', 'C13'], 'R-GUARD', 'G8|duplicate-method-rejected', ok8, 'an impl function whose name is already taken (by a vftable, base or earlier function) is rejected, tested in every iteration', g8[0].where() if g8 else where)
+    # every function of the type's impl block is built (its types resolved, its address required) — none is filtered out before
+    fam_ = [tdb] + [h_ for h_ in method_family(P, tdb) if h_ is not tdb]
+    okf = False
+    detf = 'no loop over the impl block that calls function::build'
+    for g_ in fam_:
+        for c_ in g_.calls(lambda r: r['path'] and r['path'].endswith('function::build')):
+            L = innermost_loop(g_, c_['block'])
+            if not L:
+                continue
+            sty, src = loop_source(g_, L)
+            src_e = expand(g_, src)
+            over_impl = sty is not None and re.match(r"^std::slice::Iter<'_, grammar::Function>$", sty) is not None and \
+                any(isinstance(y, tuple) and y[0] == 'field' and y[2] == 'functions' for y in walk(src_e)) and \
+                any(isinstance(y, tuple) and y[0] == 'field' and y[2] == 'impls' for y in walk(src_e))
+            if not over_impl:
+                continue
+            from r_panic import cycle_without
+            every = not cycle_without(g_, L[1], L[0], {c_['block']})
+            elem = any(isinstance(y, tuple) and y[0] == 'payload' and y[2] == 'Some' and is_call(strip(y[1]), 'Iterator::next') for y in walk(g_.expr_of_operand(c_['term']['args'][-1])))
+            prop = any(g.kind == 'reject' and g.pred[0] == 'fails' and find_calls(g.pred, 'function::build') and g.block in L[1] for g in guards_of(g_))
+            okf = every and elem and prop and not any(re.search(r'Iterator::(rev|skip|take|filter|step_by|skip_while|take_while|filter_map)$', x[3]) for x in calls_in(src_e))
+            detf = 'iterator %s, build on every trip %s, of the element %s, error propagated %s' % (sty, every, elem, prop)
+    ctx.ob(['C05', 'C10', 'C14'], 'R-ITER', 'TDB|all-impl-functions-built', okf,
+           'every function of the type\'s impl block goes through function::build (unfiltered loop, every trip, error propagated): %s' % detf, where)
     # bail census (C03-D2)
     census(ctx, A)
 
